@@ -234,9 +234,16 @@ struct RunOut {
 /// run the stream and return a steady-state segment of `n_seg` output frames
 /// `resize`: Some(seed) = the chunk size is changed between calls (set_chunk_size, asynchronous types
 /// only) on a random schedule; the stream, and with it every figure measured on it, must not care
-fn run_tones<T: Smp>(cfg: &Cfg, tones: &[(f64, f64, f64)], n_seg: usize, skip_out: usize, resize: Option<u64>) -> Result<RunOut, String> {
+fn run_tones<T: Smp>(cfg: &Cfg, tones: &[(f64, f64, f64)], n_seg: usize, skip_out: usize, resize: Option<u64>, life: Option<u64>) -> Result<RunOut, String> {
     let mut run = Runner::<T>::fresh(cfg, Sig { seed: 0, kind: SigKind::Tones(tones.to_vec()) })?;
     run.check_alloc = false;
+    if let Some(s) = life {
+        earlier_life(&mut run, &mut crate::rng::Rng::derive(&[s, 0x11fe]));
+    }
+    // the cases that permit ratio changes: set_resample_ratio_relative(1.0) before the stream - by the documentation a no-op
+    if cfg.max_rel > 1.0 {
+        noop_relative(&mut run);
+    }
     let op = Op::Proc { path: Path::Exact, slack_in: 0, slack_out: 0, mask: None, empty_inactive: false };
     let mut out: Vec<f64> = Vec::with_capacity(skip_out + n_seg + 8192);
     let mut calls = 0;
@@ -248,7 +255,20 @@ fn run_tones<T: Smp>(cfg: &Cfg, tones: &[(f64, f64, f64)], n_seg: usize, skip_ou
                 run.step(&Op::SetChunk(n));
             }
         }
-        let so = run.step(&op);
+        // with an earlier-life seed of the right parity the buffers are longer than required: the input slices
+        // carry up to two further blocks (NaN poison - must never be read), the output buffers up to 17 frames
+        let stepped = crate::mon::guarded(|| match (life, rs.is_some()) {
+            (Some(s), false) if s % 2 == 1 => {
+                let extra = if cfg.kind.is_fft() { 2 * cfg.fft_sizes().0 + 8 } else { 2 * cfg.chunk + 8 }.min(20_000);
+                let k = (crate::rng::mix(&[s, calls as u64]) % (extra as u64 + 1)) as usize;
+                run.step(&Op::Proc { path: Path::Slack, slack_in: k, slack_out: (k % 18), mask: None, empty_inactive: false })
+            }
+            _ => run.step(&op),
+        });
+        let so = match stepped {
+            Ok(so) => so,
+            Err(p) => return Err(format!("PANIC {}", p)),
+        };
         calls += 1;
         match so.res {
             Ok(_) => out.extend(so.out[0].iter().map(|v| v.f64())),
@@ -257,6 +277,9 @@ fn run_tones<T: Smp>(cfg: &Cfg, tones: &[(f64, f64, f64)], n_seg: usize, skip_ou
     }
     if out.len() < skip_out + n_seg {
         return Err("stream too short".into());
+    }
+    if let Some(j) = out[skip_out..skip_out + n_seg].iter().position(|v| !v.is_finite()) {
+        return Err(format!("NONFINITE output frame {} is {}", skip_out + j, out[skip_out + j]));
     }
     Ok(RunOut { y: out[skip_out..skip_out + n_seg].to_vec(), j0: skip_out })
 }
@@ -294,6 +317,11 @@ impl Band {
         }
         cfg.channels = 1;
         cfg.max_rel = 1.0;
+        // 30 % of the sinc cases allow ratio changes wide enough that the absolute ratio 1.0 is permitted too;
+        // they call set_resample_ratio_relative(1.0) before the stream (see noop_relative)
+        if cfg.kind.is_sinc() && cfg.ratio > 0.125 && cfg.ratio < 8.0 && rng.chance(0.3) {
+            cfg.max_rel = cfg.ratio.max(1.0 / cfg.ratio) * rng.uf(1.01, 2.0);
+        }
         if cfg.kind.is_sinc() {
             cfg.sinc_len = 8 * rng.ui(8, 64); // [64, 512]
             if rng.chance(0.3) {
@@ -338,7 +366,9 @@ impl Band {
         let floor = if T::IS32 { k_f32 * (f32::EPSILON as f64) } else { 1e-13 };
         // 15 % of the sinc cases change the chunk size between calls on a random schedule
         let resize = if cfg.kind.is_sinc() && rng.chance(0.15) { Some(rng.next()) } else { None };
-        let mut desc = J::obj().with("sample", J::s(T::NAME)).with("cfg", cfg.json()).with("segment", J::u(n_seg)).with("skip", J::u(skip_out)).with("chunk_size_schedule_seed", resize.map(|v| J::Int(v as i128)).unwrap_or(J::Null));
+        // 12 %: the instance has had an earlier life (setters, some calls) and was reset() before the stream
+        let life = if rng.chance(0.12) { Some(rng.next()) } else { None };
+        let mut desc = J::obj().with("sample", J::s(T::NAME)).with("cfg", cfg.json()).with("segment", J::u(n_seg)).with("skip", J::u(skip_out)).with("chunk_size_schedule_seed", resize.map(|v| J::Int(v as i128)).unwrap_or(J::Null)).with("earlier_life_seed", life.map(|v| J::Int(v as i128)).unwrap_or(J::Null));
         let mut cr = CaseResult::default();
 
         if !want_c02 {
@@ -371,9 +401,20 @@ impl Band {
             if ctx.describe {
                 return cr;
             }
-            let ro = match run_tones::<T>(&cfg, &tones, n_seg, skip_out, resize) {
+            let ro = match run_tones::<T>(&cfg, &tones, n_seg, skip_out, resize, life) {
                 Ok(x) => x,
                 Err(e) => {
+                    if e.starts_with("NONFINITE") {
+                        cr.viols.push(Viol::new("C01", "non_finite_output", format!("pass-band tones in, {} (steady-state segment)", e)));
+                        return cr;
+                    }
+                    if e.starts_with("PANIC") && (life.is_some() || resize.is_some()) {
+                        // the plain stream (fresh instance, exactly sized buffers, constant chunk size) for comparison
+                        if run_tones::<T>(&cfg, &tones, n_seg, skip_out, None, None).is_ok() {
+                            cr.viols.push(Viol::new("C01", "stream_fails_only_with_history_or_long_buffers", format!("pass-band tones in: the same stream completes on a fresh instance with exactly sized buffers, but with an earlier life + reset / longer buffers / chunk-size changes it ends with {}", e)));
+                            return cr;
+                        }
+                    }
                     cr.inconclusive = Some(e);
                     return cr;
                 }
@@ -482,9 +523,20 @@ impl Band {
         let mut power = 0.0;
         for q in 0..2 {
             let tones = vec![(f_abs, amp, ph0 + q as f64 * PI / 2.0)];
-            let ro = match run_tones::<T>(&cfg, &tones, n_seg, skip_out, resize) {
+            let ro = match run_tones::<T>(&cfg, &tones, n_seg, skip_out, resize, life) {
                 Ok(x) => x,
                 Err(e) => {
+                    if e.starts_with("NONFINITE") {
+                        cr.viols.push(Viol::new("C02", "non_finite_output", format!("stop-band tone in, {} (steady-state segment)", e)));
+                        return cr;
+                    }
+                    if e.starts_with("PANIC") && (life.is_some() || resize.is_some()) {
+                        // the plain stream (fresh instance, exactly sized buffers, constant chunk size) for comparison
+                        if run_tones::<T>(&cfg, &tones, n_seg, skip_out, None, None).is_ok() {
+                            cr.viols.push(Viol::new("C02", "stream_fails_only_with_history_or_long_buffers", format!("stop-band tone in: the same stream completes on a fresh instance with exactly sized buffers, but with an earlier life + reset / longer buffers / chunk-size changes it ends with {}", e)));
+                            return cr;
+                        }
+                    }
                     cr.inconclusive = Some(e);
                     return cr;
                 }
